@@ -449,6 +449,33 @@ def gen_workflow(rng: random.Random, lang: Lang, napps: int):
     for j in range(napps):
         last = j == napps - 1
         pending = [o["out"] for o in apps if o["out"] not in consumed]
+        if not last and rng.random() < 0.1:
+            # a tool whose expression is a bare source: one that provides data (`-: T`, no
+            # inputs) or one that hands its input on, possibly under an annotation (`1: T`)
+            out = f"t{j}"
+            if rng.random() < 0.5 or not res_type:
+                t = rng.choice(names)
+                res_type[out] = t
+                apps.append({"out": out, "term": ("anon", t), "ins": []})
+            else:
+                if pending and rng.random() < 0.6:
+                    r = rng.choice(pending)
+                    consumed.add(r)
+                elif rng.random() < 0.5:
+                    r = rng.choice(list(res_type))
+                    if not r.startswith("s"):
+                        consumed.add(r)
+                else:
+                    r = f"s{len(sources)}"
+                    sources.append(r)
+                    res_type[r] = rng.choice(names)
+                t = res_type[r]
+                ann = None
+                if rng.random() < 0.6 and not isinstance(t, tuple):
+                    ann = rng.choice(L.anc(t)) if rng.random() < 0.9 else rng.choice(names)
+                res_type[out] = t
+                apps.append({"out": out, "term": ("in", 0, ann), "ins": [r]})
+            continue
         best = None
         for attempt in range(10):
             g = Gen(rng, L, res_type, pending, must=last)
@@ -982,7 +1009,12 @@ def spec_obs(lang: Lang, wf, passthrough: bool) -> Obs:
     tg = targets_of(wf)
     via = {}
 
+    resnode = {}
+
     def node_of(r):
+        # a tool that hands its input on is represented by whatever represents that input
+        if r in resnode:
+            return resnode[r]
         return ("S", r) if r not in prod else ("N", r, ())
     internals = {}
 
@@ -996,7 +1028,7 @@ def spec_obs(lang: Lang, wf, passthrough: bool) -> Obs:
             o.edges.add((n, "from", node_of(q)))
             return n
         if t[0] == "anon":
-            return ("A", r, path)
+            return ("A", r, path) if path else ("N", r, ())
         c = ("N", r, path)
         op = lang.ops[lang.index[t[1]]]
         via[c] = t[1]
@@ -1020,8 +1052,10 @@ def spec_obs(lang: Lang, wf, passthrough: bool) -> Obs:
                         o.edges.add((it, "from", n))
         internals[c] = [it for it in its if it is not None]
         return c
-    for a in wf["apps"]:
-        go(a, a["term"], ())
+    for a in wf["apps"]:          # listed producers first
+        n = go(a, a["term"], ())
+        if a["term"][0] == "in":
+            resnode[a["out"]] = n
     nodes = {node_of(r) for r in wf["sources"]} | {node_of(a["out"]) for a in wf["apps"]}
     for s, _, t in o.edges:
         nodes |= {s, t}
@@ -1036,7 +1070,7 @@ def spec_obs(lang: Lang, wf, passthrough: bool) -> Obs:
 def in_domain(lang: Lang, wf) -> bool:
     """the workflows the property (and the Coq theorem, wf_okb) speaks about: one final
     application, every input defined, acyclic by construction; every tool expression is
-    an operator application; inputs are used as data"""
+    an operator application or a single anonymous source; inputs are used as data"""
     if len(targets_of(wf)) != 1:
         return False
     known = set(wf["sources"])
@@ -1044,8 +1078,21 @@ def in_domain(lang: Lang, wf) -> bool:
         if any(r not in known for r in a["ins"]):
             return False
         known.add(a["out"])
-        if a["term"][0] != "ap":
+        if a["term"][0] not in ("ap", "anon"):
             return False
+    return True
+
+
+def in_domain_ext(lang: Lang, wf) -> bool:
+    """as in_domain, but a tool expression may also be a bare source (`-: T`, `1`, `1: T`):
+    outside the Coq theorem's domain (wf_okb), inside the property's and the model's"""
+    if len(targets_of(wf)) != 1:
+        return False
+    known = set(wf["sources"])
+    for a in wf["apps"]:
+        if any(r not in known for r in a["ins"]):
+            return False
+        known.add(a["out"])
     return True
 
 
@@ -1337,6 +1384,7 @@ class Case:
         self.name, self.lang, self.wf = name, lang, wf
         self.shape = wf_shape(wf)
         self.dom = in_domain(lang, wf)
+        self.dom2 = in_domain_ext(lang, wf)      # dom, or bare-source tools
         self.model_jobs = []      # (passthrough, app_order, source_order, impl Obs)
         self.st_jobs = []         # (app_order, source_order)
 
@@ -1479,6 +1527,17 @@ def check_case(rep: C.Report, rng, case: Case, tier, acc: Counter, idx: int, all
                          "different graphs", result_listed=listing(base), result_other=listing(o)),
                     has_input=True, signature=sig)
         if not case.dom:
+            if case.dom2 and base.error is None:
+                # bare-source tools: the property structurally (types: only through the model-free
+                # order/description comparisons above)
+                sp = spec_obs(lang, wf, pt)
+                acc["bare_source_tool_workflows_checked"] += 1
+                if not iso(base, sp, structural=True):
+                    acc["structure_violations"] += 1
+                    rep.violation(f"structure_{tag}_{idx}", case.payload(kind="oracle", passthrough=pt,
+                        what="from/via/internal triples, input/output marks or the resource->node map differ "
+                             "from the tool trees plugged together (a tool here is a bare source)",
+                        impl=listing(base), expected=listing(sp)), has_input=True)
             continue
         if base.error is not None:
             if not is_typing_error(base.error):
@@ -1574,6 +1633,15 @@ def correspondence(rep: C.Report, cases, tag, acc: Counter):
             # outside the domain only success/failure is compared where the model decides it
             if mo.error is not None and io.error is None:
                 acc["model_rejects_impl_accepts_out_of_domain"] += 1
+            if case.dom2 and io.error is None:
+                acc["compared_graphs"] += 1
+                acc["compared_graphs_bare_source_tools"] += 1
+                if mo.error is not None or not iso(io, mo, structural=True):
+                    acc["disagreements"] += 1
+                    rep.violation(f"disagree_{tag}_{ci}_{'p' if pt else 'n'}", case.payload(kind="correspondence",
+                        passthrough=pt, app_order=ao, source_order=so,
+                        what="TransformationGraph.add_workflow differs from the model add_workflow (K_C12)",
+                        impl=listing(io), model=listing(mo)), has_input=False)
             nt = len(targets_of(case.wf))
             if nt != 1 and (io.error is None or io.error[0] != "ValueError"):
                 # Workflow.target: exactly one final application, else ValueError
@@ -1801,7 +1869,9 @@ def main(tier: str, seed: int, replay: str | None = None) -> int:
                 "higher-order operators) and random acyclic workflows of 1-5 tool applications with type-directed "
                 "tool expressions (depth <= 3, partial applications passed as functions, anonymous sources, "
                 "inputs used twice, annotations present / absent / more specific / occasionally wrong), shared "
-                "sources and shared intermediate results; each run with passthrough on and off, under several "
+                "sources and shared intermediate results; about one tool in ten is a bare source (`-: T` providing "
+                "data, or `1` / `1: T` handing its input on - the latter outside the Coq theorem's domain, compared "
+                "with the model and the structural specification); each run with passthrough on and off, under several "
                 "listing orders of applications and sources, as WorkflowDict, as WorkflowGraph loaded from RDF "
                 f"and as the harness' own Workflow; {nfixed} fixed cases; evaluations = model runs compared "
                 "with the implementation; non-trivial = in the theorem's domain with at least two applications, "
@@ -1809,6 +1879,9 @@ def main(tier: str, seed: int, replay: str | None = None) -> int:
         "samples": samples,
         "distribution": {
             "cases": len(cases), "fixed": nfixed, "in_domain": sum(1 for c in cases if c.dom),
+            "with_hand_on_tools": sum(1 for c in cases if c.dom2 and not c.dom),
+            "with_providing_tools": sum(1 for c in cases if any(a["term"][0] == "anon" for a in c.wf["apps"])),
+            "bare_source_tool_graphs_compared_with_model": acc["compared_graphs_bare_source_tools"],
             "implementation_runs": acc["impl_runs"] + 2 * len(cases),
             "listing_orders_run": acc["listing_orders_run"],
             "workflows_with_every_listing_order": nall,
